@@ -315,7 +315,9 @@ def gen_matchers(tier):
 CMD_NAMES = ['help', 'list', 'filter', 'breakpoint', 'matcher', 'connection', 'resume', 'quit']
 ARGS = ['org.example.editor', 'editor', 'ORG.EXAMPLE.EDITOR', 'C', 'wl_display.sync', '', 'quit', 'resume', 'q', 'wlquit', 'r', 'help', 'wl_surface', '[', 'a:b:c', '~', '~ 3', '~ x', 'wl_surface ~ 2', '~ -1', '~ 0', '~~', 'x ~ 1 ~ 2', '*', '!', 'A', 'all', 'zz',
         'matcher', 'list', 'wl list', '(5)', '(1.5)', '(inf)', '("y")', 'B: 4a', '\x1b[31m', '\x00', 'é', '  ', '.new', '.destroyed(x)',
-        '~ 99999999999999999999', '4294967296', '(-1e999)', ':', '@', '#', '=', '""', '"']
+        '~ 99999999999999999999', '4294967296', '(-1e999)', ':', '@', '#', '=', '""', '"',
+        # counts that look like digits to one test and not to another; a count beyond the interpreter's conversion limit
+        '~ \u00b2', '~ 1\u00b3', '~ \u2460', '~ \u1369', '~ \u0663', '~ \uff13', 'wl_surface ~ \u00b2', '~ ' + '9' * 5000, '~ +3', '~ 3.0', '~ 0x3', '~ 1_0']
 STATES = ['empty', 'loaded', 'selected', 'closed']
 
 
